@@ -648,7 +648,7 @@ fn vh_translate_main(src: &str, cfgpath: &str, out_parser: &str, out_tie: &str, 
     };
     let mut t = String::new();
     t.push_str("/- GENERATED by harness/vh-translate (rs2lean) - do not edit.\n   One theorem per translated function that has a counterpart in the hand-written model:\n   the definition regenerated from /repo's source equals the model's definition. -/\n");
-    t.push_str("import ImapVerif.Gen.Parser\nimport ImapVerif.Gen.TieLemmas\nset_option linter.unusedSimpArgs false\nset_option linter.unusedVariables false\nopen Bytes Parser\n\n");
+    t.push_str("import ImapVerif.Gen.Parser\nimport ImapVerif.Gen.TieLemmas\nset_option linter.unusedSimpArgs false\nset_option linter.unusedVariables false\n-- the fall-back that reorders keyword alternatives rewrites large terms\nset_option maxHeartbeats 4000000\nopen Bytes Parser\n\n");
     let mut tied: Vec<String> = vec![];
     // lemma list of a function: ties of translated callees (transitively through inlined ones)
     let lemma_list = |k: &str| -> Vec<String> {
